@@ -48,6 +48,7 @@ func genConsts(repo string) (string, error) {
 		{"initialLamport", "pkg/document/time/ticket.go", "InitialLamport"},
 		{"initialClientSeq", "pkg/document/change/checkpoint.go", "InitialClientSeq"},
 		{"initialServerSeq", "pkg/document/change/checkpoint.go", "InitialServerSeq"},
+		{"maxUndoRedoStackDepth", "pkg/document/history.go", "MaxUndoRedoStackDepth"},
 	}
 	for _, it := range items {
 		v, err := constLit(repo, it.file, it.name)
